@@ -349,7 +349,22 @@ def _read(path, check):
                         sem = c13sem.semantic(problem)
                     except Exception as e:  # noqa: BLE001
                         sem = {"error": type(e).__name__ + ": " + str(e)[:200]}
+                write_err = None
+                if not check:
+                    # every problem read without an error must be writable as it is
+                    try:
+                        with warnings.catch_warnings():
+                            warnings.simplefilter("ignore")
+                            signal.setitimer(signal.ITIMER_REAL, GUARD_S)
+                            problem.write_to_file(os.path.join(os.path.dirname(path), "written_back.imcnp"), overwrite=True)
+                            signal.setitimer(signal.ITIMER_REAL, 0)
+                    except Hang:
+                        write_err = {"cls": "hang", "site": "?", "msg": "", "where": "?", "func": "?", "explicit": False, "mro": []}
+                    except Exception as e:  # noqa: BLE001
+                        signal.setitimer(signal.ITIMER_REAL, 0)
+                        write_err = classify_exception(e)
                 res = {
+                    "write_err": write_err,
                     "sem": sem,
                     "out": "returns",
                     "cells": len(problem.cells),
@@ -461,6 +476,14 @@ def judge(bundle, obs, kind):
             (
                 dict(base, **{"class": "normal-mode-silent", "exception": c["warnings"][0]}),
                 f"check mode reports {c['warnings']} but read_input returns without raising",
+            )
+        )
+    if n["out"] == "returns" and n.get("write_err"):
+        x = n["write_err"]
+        out.append(
+            (
+                dict(base, **{"class": "returned-problem-not-writable", "exception": x["cls"], "raised_in": x["site"]}),
+                f"read_input returns without an error, but the problem it returns cannot be written unedited: write_to_file raises {x['cls']} ({x['msg']!r})",
             )
         )
     if n["out"] == "returns":
